@@ -30,12 +30,15 @@ func (s *JSONSerializer) Serialize(msg wamp.Message) ([]byte, error) {
 
 // Deserialize decodes a json payload into a Message.
 func (s *JSONSerializer) Deserialize(data []byte) (wamp.Message, error) {
-	var v []any
-	err := codec.NewDecoderBytes(data, jh).Decode(&v)
+	// Decode into an empty interface first: decoding directly into a slice
+	// would also accept a map (flattened into its keys and values).
+	var item any
+	err := codec.NewDecoderBytes(data, jh).Decode(&item)
 	if err != nil {
 		return nil, err
 	}
-	if len(v) == 0 {
+	v, ok := item.([]any)
+	if !ok || len(v) == 0 {
 		return nil, errors.New("invalid message")
 	}
 
